@@ -5,7 +5,8 @@ patched scratch tree, and file it as /verif/seeded/<id>/.  Usage: file_round8.py
 import json, os, re, shutil, subprocess, sys
 ROOT = os.path.dirname(os.path.dirname(os.path.abspath(__file__)))
 pid, src, summary, needs = sys.argv[1:5]
-SCRATCH = f'/tmp/wt/r8-verify-{pid}'
+ROUND = sys.argv[5] if len(sys.argv) > 5 else '8'
+SCRATCH = f'/tmp/wt/verify-{pid}'
 
 def sh(*a, cwd=None):
     return subprocess.run(a, capture_output=True, text=True, cwd=cwd)
@@ -31,7 +32,7 @@ try:
     files = re.findall(r'^\+\+\+ b/(\S+)', open(patch).read(), re.M)
     rules = sorted(set(re.findall(r'rule ([A-Z0-9][A-Z0-9.\-]+):', rr.stdout)))
     meta = {
-        'property': pid, 'summary': summary, 'files': files, 'needs_to_manifest': needs, 'round': '8',
+        'property': pid, 'summary': summary, 'files': files, 'needs_to_manifest': needs, 'round': ROUND,
         'first_run': 'reported' if rr.returncode == 1 else ('failed closed' if rr.returncode == 2 else 'missed'),
         'rebased': False,
         'origin': 'written by an independent sub-agent that saw only the property text and a scratch worktree (nothing from /verif)',
